@@ -173,22 +173,53 @@ def run(ctx):
                what="non-argument characters skipped here are %s, expected ['[', ']']" % sorted(lits))
     ctx.require_count("R01.4", 3)
 
-    # ---- R01.8: the iterator's walk over the type string, evaluated on probe type strings
+    # ---- R01.12: the iterator on real message bytes
+    ctx.rule("R01.12", "ITERATOR-OFFSETS: rtosc_itr_begin / rtosc_itr_end / rtosc_itr_next, evaluated on the specified encoding of the 65 probe messages and of messages made from the bracketed probe type strings "
+                       "(the iterator's cursors are member slots, the decoder's by-value result is carried back with its members), decode every argument with its tag at the offset at which it lies - "
+                       "what rtosc_argument(msg, k) finds for the same k (R01.10)")
     from ..rules import itertags as IT
     from .. import fdeval as _FD8
+    from ..rules import oscref as OR12
+    itr_decided = False
+    try:
+        groups12 = {}
+        for adr12, ty12, va12 in OR12.PROBES + [("/z", ts_, OR12.default_values(ts_)) for ts_ in IT.PROBES if ts_.count("[") == ts_.count("]")]:
+            g12 = {"/p": "fixed-width tags", "/s": "strings", "/b": "blobs", "/t": "tags without payload", "/x": "arrays and all tags", "/y": "several arguments", "/z": "bracketed type strings"}.get(adr12, "address lengths")
+            groups12.setdefault(g12, []).append((adr12, ty12, va12))
+        res12 = {}
+        for g12, probes12 in sorted(groups12.items()):
+            bad12 = []
+            for adr12, ty12, va12 in probes12:
+                b12 = OR12.iterator_checks(u, adr12, ty12, va12)
+                if b12:
+                    bad12.append({"address": adr12, "types": ty12, "problems": b12[:2]})
+            res12[g12] = (len(probes12), bad12)
+        itr_decided = True
+        for g12, (n12, bad12) in sorted(res12.items()):
+            ctx.ob("R01.12", "probe messages: %s" % g12, not bad12, site=A.where(u.function("rtosc_itr_next")), detail={"messages": n12, "mismatches": bad12[:3]},
+                   key="R01.12:%s" % g12,
+                   what="the iterator, evaluated on probe messages (%s), does not decode the arguments where they lie: %s" % (g12, bad12[:2]))
+    except _FD8.Unknown as e12:
+        ctx.note("R01.12: the iterator is not evaluable on message bytes (%s); its walk over the type string is decided by R01.8" % e12)
+
+    # ---- R01.8: the iterator's walk over the type string, evaluated on probe type strings
     for ts in IT.PROBES:
         try:
             got = IT.walk(u, ts)
         except _FD8.Unknown as e:
             if "outside the type string" in str(e):
                 got = "reads outside the type string"
+            elif itr_decided:
+                ctx.note("R01.8: the iterator's walk over the bare type string is not evaluable (%s); decided on message bytes by R01.12" % e)
+                break
             else:
                 raise AnalysisBroken("R01.8: iterator not evaluable on %r: %s" % (ts, e))
         want = [c for c in ts if c not in BRACKETS]
         ctx.ob("R01.8", "types \"%s\"" % ts, got == want, site=A.where(u.function("rtosc_itr_next")), detail={"type_string": ts, "iterator_yields": got, "value_tags": want},
                key="R01.8:%s" % ts,
                what="the iterator yields %s for the type string \"%s\"; its value tags are %s (rtosc_narguments / rtosc_type skip every '[' and ']')" % (got, ts, want))
-    ctx.require_count("R01.8", 12)
+    if not itr_decided or any(o_.rule == "R01.8" for o_ in ctx.obs):
+        ctx.require_count("R01.8", 12 if not itr_decided else 1)
 
     # ---- R01.9: sizer and writer evaluated on probe messages against the encoding the specification prescribes
     from ..rules import oscref as OR
